@@ -157,6 +157,12 @@ def do_fs(op, a):
     if op == 'corrupt_sidecar':
         x = Sid(a[1])
         dp = conf.get_data_json_path(x.path(a[0] or None))
+        if a[2].startswith('trunc:'):
+            # the existing sidecar cut after n bytes (always a strict prefix of what was written)
+            raw = dp.read_bytes()
+            n = min(int(a[2].split(':')[1]), max(len(raw) - 1, 0))
+            dp.write_bytes(raw[:n])
+            return 'ok'
         if dp.exists():
             if dp.is_dir():
                 shutil.rmtree(dp)
